@@ -17,6 +17,9 @@ class ToGFA1:
     a.append(",".join(segment_names))
     overlaps = []
     for oline in self.captured_edges:
+      if not oline.line.is_dovetail():
+        # a GFA1 path goes through links only: no GFA1 counterpart
+        return []
       gfapy.Field._validate_gfa_field(oline.line.overlap, "alignment_gfa1")
       overlap = oline.line.overlap
       if oline.orient == "-":
